@@ -155,6 +155,10 @@ class TrackerMachine(HistorySpec):
             # the end, sometimes with one more completing report behind it): brings entries to "all verifications received" often
             "report_run": st.fixed_dictionaries({"t": st.sampled_from([0, 1, 2, 3, 5, 6, 7]), "steps": st.integers(0, 2), "end": st.sampled_from([7, 7, 8, 2, 4, 6]),
                                                  "extra": st.sampled_from([0, 0, 7, 8, 2]), "decoded": st.integers(0, 1)}),
+            # a request id that comes round again (sequence counts wrap): its telecommand completes, the entry is removed one way or the
+            # other, and a telecommand with the same id is registered again
+            "recycle": st.fixed_dictionaries({"t": st.sampled_from([0, 1, 2, 5]), "end": st.sampled_from([7, 8, 6]), "extra": st.sampled_from([0, 7, 8]),
+                                              "via": st.sampled_from(["remove_entry", "remove_completed"])}),
         }
 
     def start(self, params):
@@ -183,6 +187,15 @@ class TrackerMachine(HistorySpec):
         if name == "report_run":
             for rep in self.run_reports(a):
                 devs.extend(self.step(s, "add_tm", rep))
+                if devs:
+                    break
+            return devs
+        if name == "recycle":
+            seq = [("add_tc", a["t"]), ("report_run", {"t": a["t"], "steps": 0, "end": a["end"], "extra": a["extra"], "decoded": 0}),
+                   ("remove_entry", a["t"]) if a["via"] == "remove_entry" else ("remove_completed", 0), ("add_tc", a["t"])]
+            for n2, a2 in seq:
+                devs.extend(self.step(s, n2, a2))
+                devs.extend(self.invariant(s) if not devs else [])
                 if devs:
                     break
             return devs
@@ -237,6 +250,11 @@ def _norm(trace):
     for n, a in trace["steps"]:
         if n == "report_run":
             out.extend(("add_tm", rep) for rep in TrackerMachine.run_reports(a))
+        elif n == "recycle":
+            out.append(("add_tc", a["t"]))
+            out.extend(("add_tm", rep) for rep in TrackerMachine.run_reports({"t": a["t"], "steps": 0, "end": a["end"], "extra": a["extra"], "decoded": 0}))
+            out.append(("remove_entry", a["t"]) if a["via"] == "remove_entry" else ("remove_completed", 0))
+            out.append(("add_tc", a["t"]))
         else:
             out.append(("add_tm" if n.startswith("add_tm") else n, a))
     return out
